@@ -69,7 +69,8 @@ Note(k, v) ==
                                                       LB("H", 2, n \o "g2", <<L(b, "inline", n \o "hb")>>)>>]
       [] v = 7 -> [title |-> "T" \o n, blocks |-> <<LB("Ref", 0, n \o "r", <<L(a, "inline", n \o "ra")>>),
                                                       LB("Ref", 0, n \o "s", <<L(U(a.up, a.segs, TRUE, FALSE), "inline", n \o "sa")>>),
-                                                      P("self", <<L(Rel(k, d), "inline", n \o "me")>>)>>]
+                                                      P("self", <<L(Rel(k, d), "inline", n \o "me")>>),
+                                                      LB("Ref", 0, n \o "own", <<L(Rel(k, d), "inline", n \o "ow")>>)>>]   \* a block reference to the note itself
       [] v = 8 -> [title |-> "T" \o n, blocks |-> <<LB("Quote", 0, n \o "q", <<L(a, "inline", n \o "qa")>>),
                                                       LB("Em", 0, n \o "e", <<L(U(b.up, b.segs, FALSE, b.up = 0), "inline", n \o "eb")>>),
                                                       LB("Em2", 0, n \o "f", <<L(a, "inline", n \o "fa")>>)>>]
